@@ -995,8 +995,10 @@ type lcPushTargetObserver struct{ onPub func(rawQuery string) }
 func (o *lcPushTargetObserver) OnRtmpConnect(session *rtmp.ServerSession, opa rtmp.ObjectPairArray) {}
 func (o *lcPushTargetObserver) OnNewRtmpPubSession(session *rtmp.ServerSession) error {
 	o.onPub(session.RawQuery())
+	session.SetPubSessionObserver(o) // the target takes the media (without an observer it would hang up on the first message)
 	return nil
 }
+func (o *lcPushTargetObserver) OnReadRtmpAvMsg(msg base.RtmpMsg) {}
 func (o *lcPushTargetObserver) OnNewRtmpSubSession(session *rtmp.ServerSession) error { return nil }
 
 // pushCounts returns the connection attempts the targets have seen and the push sessions attached.
